@@ -1,6 +1,6 @@
 (* Proofs/ContGifProofs.v — the GIF and RIFF instances of the generic container theory (block / chunk
-   level).  RIFF: write, read and replace satisfy the obligations; remove is write with an empty store,
-   which keeps the C2PA chunk (F-RIFF-REMOVE), so the remove theorem is refuted for RIFF. *)
+   level).  RIFF: inject_c2pa with a store is the generic write, with strip_c2pa and an empty store it is
+   the generic remove (fix eec3bf439; before it remove kept the C2PA chunk). *)
 From Coq Require Import List NArith Bool Lia Arith.
 From C2PA Require Import Base.Bytes Model.Container Model.ContPng Model.ContJpeg Model.ContGif Model.ContRiff
      Proofs.BytesProofs Proofs.ContainerProofs Proofs.ContPngProofs Proofs.ContJpegProofs.
@@ -138,20 +138,16 @@ Proof.
 Qed.
 
 (* inject_c2pa at the top level with a non-empty store is the generic write (retain drops every C2PA chunk) *)
-Theorem riff_write_children_generic cs b : b <> [] -> riff_write_children cs b = gwrite RF cs b.
+Theorem riff_write_children_generic cs b : b <> [] -> riff_write_children false cs b = gwrite RF cs b.
 Proof.
-  intro Hb. unfold riff_write_children. destruct b as [|x b']; [contradiction|].
+  intro Hb. unfold riff_write_children. destruct b as [|x b']; [contradiction|]. cbn [negb orb].
   unfold gwrite. change (ins RF cs) with (length (strip RF cs)). change (mk RF (x :: b')) with [RData C2PA_CHUNK_ID (x :: b')].
   unfold insert_at. rewrite firstn_all, skipn_all. rewrite app_nil_r. rewrite (sl_strip _ _ riff_marks). reflexivity.
 Qed.
 
-(* remove = write with an empty store = identity: the manifest stays *)
-Theorem riff_remove_is_identity cs : riff_write_children cs [] = cs.
-Proof. reflexivity. Qed.
-
-Theorem riff_remove_refuted :
-  exists cs b, b <> [] /\ riff_payload (riff_write_children (riff_write_children cs b) []) = ROk b.
-Proof. exists [RData [100; 97; 116; 97]%N [1; 2]%N], [7; 7; 7]%N. split; [discriminate| reflexivity]. Qed.
+(* remove = write_cai_impl with an empty store and strip_c2pa: the generic remove *)
+Theorem riff_remove_children_generic cs : riff_write_children true cs [] = gremove RF cs.
+Proof. unfold riff_write_children, gremove. cbn [negb orb]. rewrite (sl_strip _ _ riff_marks). reflexivity. Qed.
 
 (* ------------------------------------------------------------------ GIF object locations of a written asset *)
 Theorem gif_loc_written bs b plen total :
